@@ -197,7 +197,9 @@ def r07c(P, R):
                 R.violated("R07-c", "fill:" + key, "AST field `%s` is built from no grammar part at all; the GraphQL grammar assigns it %s" % (key, sorted(w)))
             continue
         # a source is justified when it is an assigned part, or a pair obtained from inside an assigned part
-        unjust = sorted(x for x in m if x not in w and not (m[x] & w))
+        # (a rule the value depends on only because it was selected by a test on such a pair is not a source of its content)
+        data = rec.get("data", set(m))
+        unjust = sorted(x for x in m if x in data and x not in w and not (m[x] & w))
         if not unjust:
             inner = sorted(x for x in m if x not in w and x in leaf)
             if key.endswith((".position", ".pos")) and inner:
@@ -477,6 +479,16 @@ def r07d(P, R):
                     if fld["name"] == "value":
                         sites.append((f0, pv, fld["e"]))
     if not sites:
+        # the branch computes the text and the StringValue is assembled after it (`let value = match .. { BlockStringValue => .. }`): the
+        # branch is on the data path of some StringValue.value
+        for f0, pv, body in found:
+            f = pv.fn
+            for x in f.walk():
+                if x.get("k") == "Struct" and "rest" not in x and norm(x.get("variant") or x.get("adt") or "").endswith("value::StringValue"):
+                    for fld in x["fields"]:
+                        if fld["name"] == "value" and any(y is body for y in _data_path_nodes(pv, fld["e"])):
+                            sites.append((f0, pv, body))
+    if not sites:
         R.undecided("R07-d", "block-string-value", "kind=anchor-missing: no branch of the builders taken exactly for a BlockStringValue pair builds a "
                     "StringValue; whether block strings pass through a BlockStringValue() routine is not decided")
     else:
@@ -499,6 +511,21 @@ def r07d(P, R):
         else:
             R.undecided("R07-d", "block-string-value", "block string contents pass through %s: whether that is the BlockStringValue() routine is not "
                         "decided" % sorted(calls - RAW), loc=f0.loc())
+
+
+def _data_path_nodes(pv, e):
+    """every node on the data path of expression e (below e and below the sources of the locals it mentions)"""
+    out, seen, stack = [], set(), [e]
+    while stack:
+        n = stack.pop()
+        for x in subnodes(n):
+            out.append(x)
+            if x.get("k") == "Path" and "local" in x and x["local"] not in seen:
+                seen.add(x["local"])
+                for src, extra in pv.src.get(x["local"], []):
+                    if src is not None:
+                        stack.append(src)
+    return out
 
 
 def _data_path_calls(pv, e):
